@@ -153,6 +153,8 @@ def gen_value(rng, fcp, t, avoid_signed_min=False, big=False):
         return [gen_value(rng, fcp, t.underlying_type, avoid_signed_min, big) for _ in range(t.size)]
     if type(t) is T.DynamicArrayType:
         n = rng.choice([0, 0, 1, 2, 3, 5]) if not (big and rng.random() < 0.1) else 40
+        if type(t.underlying_type) in (T.UnsignedType, T.SignedType, T.EnumType) and rng.random() < 0.5:
+            n = rng.choice([6, 9, 12, 17, 33])      # more elements than bytes when the elements are narrower than a byte
         return [gen_value(rng, fcp, t.underlying_type, avoid_signed_min, big) for _ in range(n)]
     if type(t) is T.OptionalType:
         if rng.random() < 0.4:
